@@ -115,6 +115,7 @@ def run(rep, tier):
     c05.declare(rep)
     rep.rules.pop("C05.a", None)
     rep.rules.pop("C05.cuda", None)
+    rep.rules.pop("C05.f", None)
     c05.run_conversions(rep, tier)
     c17.declare(rep)
     c17.run(rep, tier)
